@@ -95,6 +95,7 @@ pub fn gen_cases(prop: &str, tier: &str, seed: u64, rep: &mut Report) -> Vec<Emi
         let mut features = g.features.clone();
         if i % 5 == 3 { features.push("regenerated_with_marker".to_string()); }
         if i % 5 == 1 { features.push("regenerated_over_an_earlier_revision".to_string()); }
+        if i % 10 == 6 { features.push("regenerated_over_a_same_length_copy".to_string()); }
         cases.push(EmitCase { label: format!("(generated seed={seed} index={i} cfg={})", quote(&format!("{:?}", cfg))), doc, cfg, features });
     }
     cases
@@ -121,6 +122,17 @@ pub fn run_real(c: &EmitCase) -> Result<Emitted, String> {
         }
     }
     let mut r = generate(&spec, &c.cfg, &d);
+    // ... or over a copy of itself in which one letter of every file was changed (same length, same everything else):
+    // whatever shortcut decides that a file is up to date must look at its content
+    if r.is_ok() && c.features.iter().any(|f| f == "regenerated_over_a_same_length_copy") {
+        for (p, b) in read_tree(&d) {
+            if !p.ends_with(".rs") { continue; }
+            let mut nb = b.clone();
+            if let Some(i) = nb.iter().rposition(|x| x.is_ascii_lowercase()) { nb[i] = if nb[i] == b'z' { b'a' } else { nb[i] + 1 }; }
+            let _ = std::fs::write(d.join(&p), nb);
+        }
+        r = generate(&spec, &c.cfg, &d);
+    }
     // regeneration over a hand-edited lib.rs (text above the documented marker is the user's): part of every
     // crate's life, so a share of the cases is taken through it
     if r.is_ok() && c.features.iter().any(|f| f == "regenerated_with_marker") {
